@@ -25,6 +25,7 @@ type SessGen struct {
 	SimpleOnly bool
 	pools      map[string][]Val
 	lastTag    string
+	mixedSeq   int
 }
 
 // poolVal draws a value for a searchable column from its pool.
@@ -298,6 +299,25 @@ func (g *SessGen) finish(st *Step, sql string, params []boundVal, nResultCols in
 			}
 			pvals[i] = p.v.Param(b)
 		}
+		// every third mixed Bind with three or more parameters gets the pattern "first and last alike, something else in
+		// between" (what drivers produce that send integers in binary and strings in text); chosen by a counter so that the
+		// PRNG stream is what it was
+		if len(params) >= 3 {
+			g.mixedSeq++
+			if g.mixedSeq%3 == 0 {
+				last := len(pf) - 1
+				pf[last] = pf[0]
+				mid := 1 + g.mixedSeq/3%(last-1+1)
+				if mid >= last {
+					mid = 1
+				}
+				pf[mid] = 1 - pf[0]
+				for i, p := range params {
+					pvals[i] = p.v.Param(pf[i] == 1)
+				}
+				st.FormatPattern = "first-and-last-alike-middle-different"
+			}
+		}
 	}
 	if len(params) == 0 {
 		st.ParamFmt = "none"
@@ -336,6 +356,9 @@ func (g *SessGen) finish(st *Step, sql string, params []boundVal, nResultCols in
 	bind := &pgproto3.Bind{PreparedStatement: name, DestinationPortal: portal, ParameterFormatCodes: pf, Parameters: pvals, ResultFormatCodes: rf}
 	exec := &pgproto3.Execute{Portal: portal, MaxRows: maxRows}
 	st.Detail = fmt.Sprintf("stmt=%q portal=%q paramFormats=%v resultFormats=%v maxRows=%d nparams=%d", name, portal, pf, rf, maxRows, len(params))
+	if st.FormatPattern != "" {
+		st.Detail += " formatPattern=" + st.FormatPattern
+	}
 	switch r.Intn(3) {
 	case 0:
 		st.Proto = "extended"
